@@ -692,6 +692,9 @@ func Run(p *Property, o Options) int {
 	os.MkdirAll(filepath.Join(root, "evidence"), 0o755)
 	writeJSON(filepath.Join(root, "evidence", p.ID+".json"), ev)
 	if exit == 0 {
+		// no stale replay files for this (property, tier, seed)
+		os.Remove(filepath.Join(root, "replays", fmt.Sprintf("%s-%s-%d.json", p.ID, o.Tier, o.Seed)))
+		os.Remove(filepath.Join(root, "replays", fmt.Sprintf("%s-%s-%d-nowitness.json", p.ID, o.Tier, o.Seed)))
 		fmt.Printf("OK property=%s tier=%s seed=%d obligations=%d discharged=%d cases=%d wall=%.1fs\n",
 			p.ID, o.Tier, o.Seed, obligations, discharged, total, time.Since(t0).Seconds())
 	}
